@@ -136,10 +136,11 @@ def run_case(case, rec):
                     dist[w] = min(dist.get(w, 99), len(p))
             reach[u] = dist
         # ---- relabel
-        vm = {'x': 'q', 'y': 'x', 'z': 'y'}
-        d2, _ = build(case, value_map=vm)
-        ok, r2 = safe(al.delta_conformity, d2.G, start, delta, alphas, labels, **kw)
-        rec.check('C20.relabel', ok and close_scores(res, r2), lambda: '%s changes under a bijective renaming of label values: %r vs %r' % (ctx, res, r2))
+        # two bijections: a permutation of the names, and one onto other categorical values (ints, '')
+        for vm in ({'x': 'q', 'y': 'x', 'z': 'y'}, {'x': 0, 'y': '', 'z': 7}):
+            d2, _ = build(case, value_map=vm)
+            ok, r2 = safe(al.delta_conformity, d2.G, start, delta, alphas, labels, **kw)
+            rec.check('C20.relabel', ok and close_scores(res, r2), lambda: '%s changes under the bijective renaming of label values %r: %r vs %r' % (ctx, vm, res, r2))
         # ---- rename nodes
         ns = list(d.nodes)
         k = case['perm'] % len(ns) or 1
